@@ -9,6 +9,7 @@ import (
 	"strings"
 	"time"
 
+	"github.com/lindb/lindb/models"
 	"github.com/lindb/lindb/series/metric"
 	"github.com/lindb/lindb/tsdb"
 
@@ -172,9 +173,32 @@ type caseRun struct {
 	expired bool // the family's write window closed long ago: the WAL garbage collector may remove its log
 	// terminal: the node was recovered from an image taken INSIDE a dictionary / table flush; the
 	// name-level model no longer tracks the durable dictionaries, only replay + final checks follow
-	terminal bool
-	lossFate map[int64]string // entry -> stable key of a loss the harness provoked on purpose
-	innerK   int              // table-file index for the next crash inside a flush call (-1: random)
+	terminal      bool
+	lossFate      map[int64]string // entry -> stable key of a loss the harness provoked on purpose
+	innerK        int              // table-file index for the next crash inside a flush call (-1: random)
+	frozenPending bool             // a failed Flush left an immutable memory database behind
+	leaders       []models.NodeID  // the leaders whose log partitions of the family this node holds
+	cur           models.NodeID    // the lane the partition ops go to
+}
+
+// P = the positions of all lanes, as the model driver prints them.
+func (r *caseRun) P() string { return r.n.posAll() }
+
+func (r *caseRun) multi() bool { return len(r.leaders) > 1 }
+
+// lop prefixes a partition op with its lane when the node holds several logs.
+func (r *caseRun) lop(op string) string {
+	if r.multi() {
+		return fmt.Sprintf("@%d %s", r.cur, op)
+	}
+	return op
+}
+
+func (r *caseRun) use(l models.NodeID) {
+	r.cur = l
+	if r.n != nil {
+		r.n.use(l)
+	}
 }
 
 func (r *caseRun) failHarness(what string, err error) {
@@ -205,11 +229,23 @@ func (r *caseRun) start() bool {
 		r.failHarness("mkdir", err)
 		return false
 	}
-	if r.n, err = openNode(root, r.famTime, r.expired); err != nil {
+	if len(r.leaders) == 0 {
+		r.leaders = []models.NodeID{leader}
+	}
+	if r.n, err = openNode(root, r.famTime, r.expired, r.leaders...); err != nil {
 		r.failHarness("open node", err)
 		return false
 	}
-	r.c.Op("reset", r.n.pos().String())
+	r.use(r.leaders[0])
+	if len(r.leaders) == 1 && r.leaders[0] == leader {
+		r.c.Op("reset", r.P())
+	} else {
+		var ls []string
+		for _, l := range r.leaders {
+			ls = append(ls, strconv.Itoa(int(l)))
+		}
+		r.c.Op("lanes "+strings.Join(ls, " "), r.P())
+	}
 	return true
 }
 
@@ -236,12 +272,12 @@ func (r *caseRun) opAppendBad() {
 	if r.n.part == nil {
 		return
 	}
-	e := entry{Seq: int64(len(r.entries)), Bad: true}
+	e := entry{Seq: r.laneLen(), Bad: true, Leader: r.cur, Slot: int64(len(r.entries))}
 	if !r.guard("append", func() error { return r.n.appendEntry(e) }) {
 		return
 	}
 	r.entries = append(r.entries, e)
-	r.c.Op("appendbad", r.n.pos().String())
+	r.c.Op(r.lop("appendbad"), r.P())
 	r.c.Branch("corrupt-entry")
 }
 
@@ -249,7 +285,7 @@ func (r *caseRun) opAppend(m, t int) {
 	if r.n.part == nil {
 		return
 	}
-	e := entry{Seq: int64(len(r.entries)), Metric: m, Tagv: t}
+	e := entry{Seq: r.laneLen(), Metric: m, Tagv: t, Leader: r.cur, Slot: int64(len(r.entries))}
 	if !r.guard("append", func() error { return r.n.appendEntry(e) }) {
 		return
 	}
@@ -259,18 +295,32 @@ func (r *caseRun) opAppend(m, t int) {
 		r.failHarness("append", fmt.Errorf("queue assigned sequence %d, expected %d", p.appended, e.Seq))
 		return
 	}
-	r.c.Op(fmt.Sprintf("append %d %d", m, t), p.String())
+	r.c.Op(r.lop(fmt.Sprintf("append %d %d", m, t)), r.P())
 }
 
+// laneLen = number of entries appended to the current lane's log so far.
+func (r *caseRun) laneLen() int64 {
+	k := int64(0)
+	for _, e := range r.entries {
+		if e.ldr() == r.cur {
+			k++
+		}
+	}
+	return k
+}
+
+// nextEntry = the entry the current lane's replicator will consume next.
 func (r *caseRun) nextEntry() (entry, bool) {
 	if !r.n.pending() {
 		return entry{}, false
 	}
 	s := r.n.cg.ConsumedSeq() + 1
-	if s < 0 || int(s) >= len(r.entries) {
-		return entry{}, false
+	for _, e := range r.entries {
+		if e.ldr() == r.cur && e.Seq == s {
+			return e, true
+		}
 	}
-	return r.entries[s], true
+	return entry{}, false
 }
 
 // onWritten: bookkeeping right after WriteRows of entry e returned (its sequence is not committed yet).
@@ -278,7 +328,7 @@ func (r *caseRun) nextEntry() (entry, bool) {
 func (r *caseRun) onWritten(e entry, dropped bool) {
 	r.sh.addNames(e)
 	if !dropped {
-		r.sh.mem = append(r.sh.mem, e.Seq)
+		r.sh.mem = append(r.sh.mem, e.Slot)
 	}
 	live := r.n.liveIDs(e)
 	if len(live) == 0 {
@@ -291,13 +341,13 @@ func (r *caseRun) onWritten(e entry, dropped bool) {
 	}
 	for _, id := range live {
 		dup := false
-		for _, x := range r.ids[e.Seq] {
+		for _, x := range r.ids[e.Slot] {
 			if x == id {
 				dup = true
 			}
 		}
 		if !dup {
-			r.ids[e.Seq] = append(r.ids[e.Seq], id)
+			r.ids[e.Slot] = append(r.ids[e.Slot], id)
 		}
 	}
 }
@@ -312,44 +362,93 @@ const (
 
 // flushObs is what one dataFamily.Flush let the harness observe.
 type flushObs struct {
-	before    positions
-	mid, post *positions
-	after     positions
+	before    string
+	mid, post *string
+	after     string
+	acks      int // how many post-ack callbacks ran
+}
+
+// seqLanes = how many lanes have a replica sequence in the family (their ack callbacks run at a flush).
+func (r *caseRun) seqLanes() int {
+	k := 0
+	for _, l := range r.leaders {
+		if r.n.posOf(l).hasSeq {
+			k++
+		}
+	}
+	return k
+}
+
+// observeFlush runs call (family.Flush / doFlush / Close ...) and records the positions of all lanes
+// before it, at the FIRST ack callback of each committed file (data committed, nothing acknowledged
+// yet) and after the LAST one (all leaders acknowledged); atMid / atPost are called at those two
+// points of the file-th committed file (0-based; Flush commits one, Close up to two).
+func (r *caseRun) observeFlush(what string, call func() error, file int, atMid, atPost func()) (obs []flushObs, ok bool) {
+	before := r.P()
+	n := r.seqLanes()
+	cur := flushObs{before: before}
+	mids, posts := 0, 0
+	r.n.midFlush = func() {
+		mids++
+		if mids%maxInt(n, 1) == 1 || n <= 1 {
+			p := r.P()
+			cur.mid = &p
+			if len(obs) == file && atMid != nil {
+				atMid()
+			}
+		}
+	}
+	r.n.postAck = func() {
+		posts++
+		cur.acks++
+		if n <= 1 || posts%n == 0 {
+			p := r.P()
+			cur.post = &p
+			if len(obs) == file && atPost != nil {
+				atPost()
+			}
+			cur.after = p
+			obs = append(obs, cur)
+			cur = flushObs{before: p}
+		}
+	}
+	ok = r.guard(what, call)
+	r.n.midFlush, r.n.postAck = nil, nil
+	after := r.P()
+	if len(obs) == 0 {
+		cur.after = after
+		obs = append(obs, cur)
+	} else {
+		obs[len(obs)-1].after = after
+	}
+	return obs, ok
+}
+
+func maxInt(a, b int) int {
+	if a > b {
+		return a
+	}
+	return b
 }
 
 // runFlush calls family.Flush and records the positions at its steps (no ops are emitted).
 func (r *caseRun) runFlush() (o flushObs, ok bool) {
-	o.before = r.n.pos()
-	r.n.midFlush = func() {
-		if o.mid == nil {
-			p := r.n.pos()
-			o.mid = &p
-		}
-	}
-	r.n.postAck = func() {
-		if o.post == nil {
-			p := r.n.pos()
-			o.post = &p
-		}
-	}
-	ok = r.guard("flush family", r.n.flushFamily)
-	r.n.midFlush, r.n.postAck = nil, nil
-	o.after = r.n.pos()
-	return o, ok
+	obs, ok := r.observeFlush("flush family", r.n.flushFamily, 0, nil, nil)
+	return obs[0], ok
 }
 
-func (r *caseRun) emitFreeze(o flushObs) { r.c.Op("freeze", o.before.String()) }
+func (r *caseRun) emitFreeze(o flushObs) { r.c.Op("freeze", o.before) }
 func (r *caseRun) emitCommitAck(o flushObs) {
 	if o.mid == nil {
-		r.c.Op("dcommit", o.after.String())
-		r.c.Op("ack", o.after.String())
+		r.c.Op("dcommit", o.after)
+		r.c.Op("ack", o.after)
 		return
 	}
-	r.c.Op("dcommit", o.mid.String())
+	r.c.Op("dcommit", *o.mid)
 	if o.post != nil {
-		r.c.Op("ack", o.post.String())
+		r.c.Op("ack", *o.post)
 	} else {
-		r.c.Op("ack", o.after.String())
+		r.c.Op("ack", o.after)
 	}
 }
 
@@ -360,6 +459,9 @@ func (r *caseRun) emitCommitAck(o flushObs) {
 func (r *caseRun) opApply() { r.opApplyInj(injNone) }
 
 func (r *caseRun) opApplyInj(inj int) {
+	if r.frozenPending {
+		inj = injNone // every Flush is a no-op until the family is closed
+	}
 	e, ok := r.nextEntry()
 	if !ok {
 		return
@@ -368,14 +470,14 @@ func (r *caseRun) opApplyInj(inj int) {
 	h := r.n.hooks
 	valid := false
 	fine := inj != injNone
-	var gapPos positions
+	var gapPos string
 	var gapObs flushObs
 	gapDone := make(chan struct{})
 	gapStarted, gapInside, gapHadRows := false, false, false
 	h.afterValidate = func(_ int64, ok bool) {
 		valid = ok
 		if fine {
-			r.c.Op("begin", r.n.pos().String())
+			r.c.Op(r.lop("begin"), r.P())
 		}
 	}
 	h.beforeWrite = func() {
@@ -392,8 +494,8 @@ func (r *caseRun) opApplyInj(inj int) {
 		if !fine {
 			return
 		}
-		gapPos = r.n.pos()
-		r.c.Op("take", gapPos.String())
+		gapPos = r.P()
+		r.c.Op(r.lop("take"), gapPos)
 		if inj != injGap {
 			return
 		}
@@ -424,22 +526,22 @@ func (r *caseRun) opApplyInj(inj int) {
 			dropped := gapHadRows
 			r.onWritten(e, dropped)
 			if dropped {
-				r.lossFate[e.Seq] = keyGap
+				r.lossFate[e.Slot] = keyGap
 			}
-			p := r.n.pos()
-			r.c.Op("acquire", p.String())
-			r.c.Op("write", p.String())
+			p := r.P()
+			r.c.Op(r.lop("acquire"), p)
+			r.c.Op(r.lop("write"), p)
 		case gapStarted:
 			r.onWritten(e, false)
-			r.c.Op("freeze", gapPos.String())
-			r.c.Op("acquire", gapPos.String())
-			r.c.Op("write", gapPos.String())
+			r.c.Op("freeze", gapPos)
+			r.c.Op(r.lop("acquire"), gapPos)
+			r.c.Op(r.lop("write"), gapPos)
 		default:
 			r.onWritten(e, false)
 			if fine {
-				p := r.n.pos()
-				r.c.Op("acquire", p.String())
-				r.c.Op("write", p.String())
+				p := r.P()
+				r.c.Op(r.lop("acquire"), p)
+				r.c.Op(r.lop("write"), p)
 			}
 		}
 	}
@@ -460,7 +562,7 @@ func (r *caseRun) opApplyInj(inj int) {
 	}
 	h.afterCommit = func() {
 		if fine {
-			r.c.Op("commit", r.n.pos().String())
+			r.c.Op(r.lop("commit"), r.P())
 		}
 	}
 	ok = r.guard("apply", func() error { return r.n.applyNext(e) })
@@ -477,12 +579,12 @@ func (r *caseRun) opApplyInj(inj int) {
 		r.c.Branch("apply-rejected")
 	}
 	if !fine {
-		r.c.Op("apply", r.n.pos().String())
+		r.c.Op(r.lop("apply"), r.P())
 	} else if !valid {
 		// rejected: Replica returned right after ValidateSequence; the remaining steps are no-ops
-		p := r.n.pos().String()
+		p := r.P()
 		for _, op := range []string{"take", "acquire", "write", "commit"} {
-			r.c.Op(op, p)
+			r.c.Op(r.lop(op), p)
 		}
 	}
 }
@@ -495,7 +597,7 @@ func (r *caseRun) opFlushMeta() {
 	r.sh.tagv.prepare(r.sh.swapOnEmpty)
 	r.sh.metric.flush()
 	r.sh.tagv.flush()
-	r.c.Op("fmeta", r.n.pos().String())
+	r.c.Op("fmeta", r.P())
 }
 
 func (r *caseRun) opFlushIndex() {
@@ -503,7 +605,7 @@ func (r *caseRun) opFlushIndex() {
 		return
 	}
 	r.sh.flushIndex()
-	r.c.Op("findex", r.n.pos().String())
+	r.c.Op("findex", r.P())
 }
 
 // crash points inside dataFamily.Flush
@@ -516,9 +618,35 @@ const (
 // opFlushData = dataFamily.Flush, observed at its three steps. With a crash point the node
 // directory is imaged there and the case continues from that image. whole=true runs the flush
 // checker's own doFlush instead (metadata flush, index flush, family flush in the code's order).
+// flushWhilePending: a failed flush left an immutable memory database behind; until the family is
+// closed every further Flush returns at once (and so does the data part of doFlush).
+func (r *caseRun) flushWhilePending(whole bool) {
+	before := r.P()
+	call, what := r.n.flushFamily, "flush family"
+	if whole {
+		call, what = r.n.doFlush, "doFlush"
+	}
+	if !r.guard(what, call) {
+		return
+	}
+	if whole {
+		r.sh.metric.prepare(r.sh.swapOnEmpty)
+		r.sh.tagv.prepare(r.sh.swapOnEmpty)
+		r.sh.metric.flush()
+		r.sh.tagv.flush()
+		r.c.Op("fmeta", before)
+		r.sh.flushIndex()
+		r.c.Op("findex", before)
+	}
+	r.c.Op("freeze", r.P())
+}
+
 func (r *caseRun) opFlushData(crashAt int, whole bool) {
-	before := r.n.pos()
-	var mid, post *positions
+	if r.frozenPending {
+		r.flushWhilePending(whole)
+		return
+	}
+	before := r.P()
 	img := ""
 	var imgErr error
 	image := func() {
@@ -526,33 +654,18 @@ func (r *caseRun) opFlushData(crashAt int, whole bool) {
 			imgErr = copyTree(r.n.root, img)
 		}
 	}
-	r.n.midFlush = func() {
-		if mid != nil {
-			return
-		}
-		p := r.n.pos()
-		mid = &p
-		if crashAt == crashMid {
-			image()
-		}
+	var atMid, atPost func()
+	if crashAt == crashMid {
+		atMid = image
 	}
-	r.n.postAck = func() {
-		if post != nil {
-			return
-		}
-		p := r.n.pos()
-		post = &p
-		if crashAt == crashAck {
-			image()
-		}
+	if crashAt == crashAck {
+		atPost = image
 	}
-	var ok bool
+	call, what := r.n.flushFamily, "flush family"
 	if whole {
-		ok = r.guard("doFlush", r.n.doFlush)
-	} else {
-		ok = r.guard("flush family", r.n.flushFamily)
+		call, what = r.n.doFlush, "doFlush"
 	}
-	r.n.midFlush, r.n.postAck = nil, nil
+	obs, ok := r.observeFlush(what, call, 0, atMid, atPost)
 	if !ok {
 		return
 	}
@@ -560,35 +673,35 @@ func (r *caseRun) opFlushData(crashAt int, whole bool) {
 		r.failHarness("crash image", imgErr)
 		return
 	}
-	after := r.n.pos()
+	o := obs[0]
 	if whole {
 		r.sh.metric.prepare(r.sh.swapOnEmpty)
 		r.sh.tagv.prepare(r.sh.swapOnEmpty)
 		r.sh.metric.flush()
 		r.sh.tagv.flush()
-		r.c.Op("fmeta", before.String())
+		r.c.Op("fmeta", before)
 		r.sh.flushIndex()
-		r.c.Op("findex", before.String())
+		r.c.Op("findex", before)
 		r.c.Branch("real-doFlush")
 	}
 	r.sh.freeze(r.entries)
-	r.c.Op("freeze", before.String())
-	if mid == nil {
-		// no sequence for the leader yet (or nothing to flush): the callbacks did not run
-		r.c.Op("dcommit", after.String())
-		r.c.Op("ack", after.String())
+	r.c.Op("freeze", before)
+	if o.mid == nil {
+		// no sequence for any leader yet (or nothing to flush): the callbacks did not run
+		r.c.Op("dcommit", o.after)
+		r.c.Op("ack", o.after)
 		return
 	}
-	r.c.Op("dcommit", mid.String())
+	r.c.Op("dcommit", *o.mid)
 	if crashAt == crashMid && img != "" {
 		r.c.Branch("crash-between-commit-and-ack")
 		r.crashTo(img)
 		return
 	}
-	if post != nil {
-		r.c.Op("ack", post.String())
+	if o.post != nil {
+		r.c.Op("ack", *o.post)
 	} else {
-		r.c.Op("ack", after.String())
+		r.c.Op("ack", o.after)
 	}
 	if crashAt == crashAck && img != "" {
 		r.c.Branch("crash-right-after-ack")
@@ -601,7 +714,12 @@ func (r *caseRun) opFlushData(crashAt int, whole bool) {
 // became immutable and before its table is written (tsdb.VerifC11SetFlushHooks: the place where
 // flushMemoryDatabase creates the data flusher).
 func (r *caseRun) opFlushDataInnerApply() {
-	before := r.n.pos()
+	if r.frozenPending {
+		r.opApply()
+		r.flushWhilePending(false)
+		return
+	}
+	before := r.P()
 	fired := false
 	restore := tsdb.VerifC11SetFlushHooks(func() {
 		if fired {
@@ -609,7 +727,7 @@ func (r *caseRun) opFlushDataInnerApply() {
 		}
 		fired = true
 		r.sh.freeze(r.entries)
-		r.c.Op("freeze", before.String())
+		r.c.Op("freeze", before)
 		r.opApply()
 		r.c.Branch("replica-inside-flush")
 	}, nil)
@@ -663,7 +781,7 @@ func (r *caseRun) opFlushMetaFail(store string) {
 		r.sh.tagv.prepare(r.sh.swapOnEmpty)
 		r.sh.metric.flush()
 		r.sh.tagv.flush()
-		r.c.Op("fmeta", r.n.pos().String())
+		r.c.Op("fmeta", r.P())
 		return
 	}
 	if err == nil {
@@ -672,7 +790,7 @@ func (r *caseRun) opFlushMetaFail(store string) {
 	}
 	r.sh.metric.prepare(r.sh.swapOnEmpty)
 	r.sh.tagv.prepare(r.sh.swapOnEmpty)
-	p := r.n.pos().String()
+	p := r.P()
 	r.c.Op("mprep", p)
 	if store == "tv" {
 		r.sh.metric.flush()
@@ -685,33 +803,177 @@ func (r *caseRun) opFlushMetaFail(store string) {
 // partition.IsExpire: queue Sync + GC, and for a family past its write window: if every consumer
 // group IsEmpty, stop + close the partition and remove its directory).
 func (r *caseRun) opGC() {
-	had := r.n.part != nil
-	unacked := false
-	if had {
-		p := r.n.pos()
-		unacked = p.ack < p.appended
+	had, unacked := map[models.NodeID]bool{}, map[models.NodeID]bool{}
+	r.n.save()
+	for _, l := range r.leaders {
+		had[l] = r.n.lanes[l].part != nil
+		if had[l] {
+			p := r.n.posOf(l)
+			unacked[l] = p.ack < p.appended
+		}
 	}
 	if !r.guard("wal gc", r.n.walGC) {
 		return
 	}
-	if had && r.n.part == nil && unacked {
-		// the directory went away under entries that are not acknowledged: crash NOW (any later
-		// flush on this process would run the destroyed partition's ack callback)
-		r.c.Op("wgc", r.n.pos().String())
-		r.opCrash()
-		r.terminal = true
-		return
-	}
+	r.n.save()
+	op := "gc 0"
 	if r.expired {
-		r.c.Op("wgc", r.n.pos().String())
-		if had && r.n.part == nil {
+		op = "wgc"
+	}
+	old := r.cur
+	lostUnacked := false
+	for _, l := range r.leaders {
+		r.use(l)
+		r.c.Op(r.lop(op), r.P())
+		gone := had[l] && r.n.lanes[l].part == nil
+		if gone && unacked[l] {
+			lostUnacked = true
+		}
+		if r.expired && gone {
 			r.c.Branch("wal-directory-removed")
-		} else if had {
+		} else if r.expired && had[l] {
 			r.c.Branch("wal-gc-kept-unacknowledged-log")
 		}
+	}
+	r.use(old)
+	if lostUnacked {
+		// a directory went away under entries that are not acknowledged: crash NOW (any later
+		// flush on this process would run the destroyed partition's ack callback)
+		r.opCrash()
+		r.terminal = true
+	}
+}
+
+// opFlushDataFail = dataFamily.Flush during which the creation of the data table file fails: the
+// memory database has been switched to immutable (with the sequences captured) and STAYS pending;
+// the family cannot flush again until it is closed. The history continues.
+func (r *caseRun) opFlushDataFail() {
+	root := r.n.root
+	failed := false
+	tableFail = func(fileName string) error {
+		if strings.HasPrefix(fileName, root) && strings.Contains(fileName, "/segment/") {
+			failed = true
+			return fmt.Errorf("injected: cannot create %s", fileName[len(root):])
+		}
+		return nil
+	}
+	before := r.P()
+	var err error
+	func() {
+		defer func() {
+			if p := recover(); p != nil {
+				r.c.Fail("panic", fmt.Sprintf("family flush with a failing table creation panicked: %v", p))
+				r.broken = true
+			}
+		}()
+		err = r.n.flushFamily()
+	}()
+	tableFail = nil
+	if r.broken {
 		return
 	}
-	r.c.Op("gc 0", r.n.pos().String())
+	if !failed {
+		if err != nil {
+			r.failHarness("flush family", err)
+			return
+		}
+		// nothing to flush (or an immutable memory database is already pending): Flush did nothing
+		r.c.Op("freeze", before)
+		return
+	}
+	if err == nil {
+		r.failHarness("flush family", fmt.Errorf("the table creation failed but Flush reported success"))
+		return
+	}
+	r.sh.freeze(r.entries)
+	r.c.Op("freeze", before)
+	r.frozenPending = true
+	r.c.Branch("data-flush-failed-immutable-pending")
+}
+
+// opClose = dataFamily.Close (family eviction / shutdown): flush a pending immutable memory database,
+// then the mutable one. crashFile/crashAt choose a crash image after the crashFile-th committed file
+// (0 or 1), before (crashMid) or after (crashAck) its acknowledgement; otherwise the image is taken
+// after Close. The node restarts from the image either way (a closed family is not used again).
+func (r *caseRun) opClose(crashFile, crashAt int) {
+	img := ""
+	var imgErr error
+	image := func() {
+		if img == "" {
+			if img, imgErr = r.newRoot(); imgErr == nil {
+				imgErr = copyTree(r.n.root, img)
+			}
+		}
+	}
+	var atMid, atPost func()
+	if crashAt == crashMid {
+		atMid = image
+	}
+	if crashAt == crashAck {
+		atPost = image
+	}
+	hadFrozen := r.frozenPending
+	hadMutable := len(r.sh.mem) > 0
+	before := r.P()
+	r.n.noFamLock = true // Close holds the family mutex: the callbacks must not ask the family for its state
+	obs, ok := r.observeFlush("family close", r.n.fam.Close, crashFile, atMid, atPost)
+	r.n.noFamLock = false
+	if !ok {
+		return
+	}
+	if imgErr != nil {
+		r.failHarness("crash image", imgErr)
+		return
+	}
+	r.c.Branch("family-close")
+	k := 0
+	emit := func(withFreeze bool, start string) bool {
+		// one committed file: [freeze] dcommit ack; returns true when the case crashed at this file
+		if withFreeze {
+			r.sh.freeze(r.entries)
+			r.c.Op("freeze", start)
+		}
+		if k >= len(obs) || obs[k].mid == nil {
+			// no sequence for any leader: no callbacks, the positions did not move
+			r.c.Op("dcommit", start)
+			r.c.Op("ack", start)
+			return false
+		}
+		o := obs[k]
+		k++
+		r.c.Op("dcommit", *o.mid)
+		if crashAt == crashMid && crashFile == k-1 && img != "" {
+			return true
+		}
+		if o.post != nil {
+			r.c.Op("ack", *o.post)
+		} else {
+			r.c.Op("ack", o.after)
+		}
+		return crashAt == crashAck && crashFile == k-1 && img != ""
+	}
+	start := before
+	crashed := false
+	if hadFrozen {
+		crashed = emit(false, start)
+		if k > 0 && obs[k-1].post != nil {
+			start = *obs[k-1].post
+		}
+	}
+	if !crashed && hadMutable {
+		crashed = emit(true, start)
+	}
+	r.frozenPending = false
+	if img == "" {
+		image()
+		if imgErr != nil {
+			r.failHarness("crash image", imgErr)
+			return
+		}
+	} else if crashed {
+		r.c.Branch("crash-inside-family-close")
+	}
+	r.crashTo(img)
 }
 
 // table-creation crash points: the kinds of flush call an image can be taken inside of
@@ -726,6 +988,10 @@ const (
 // one and the later ones are not. The case continues from that image and ends after replay: the
 // name-level model does not follow partially flushed dictionaries, so the call is not reported to it.
 func (r *caseRun) opFlushInnerCrash(kind int) bool {
+	if kind == innerData && r.frozenPending {
+		r.flushWhilePending(false)
+		return false
+	}
 	k := r.innerK
 	if k < 0 {
 		k = r.rng.Intn(4)
@@ -770,10 +1036,10 @@ func (r *caseRun) opFlushInnerCrash(kind int) bool {
 			r.sh.tagv.prepare(r.sh.swapOnEmpty)
 			r.sh.metric.flush()
 			r.sh.tagv.flush()
-			r.c.Op("fmeta", r.n.pos().String())
+			r.c.Op("fmeta", r.P())
 		case innerIndex:
 			r.sh.flushIndex()
-			r.c.Op("findex", r.n.pos().String())
+			r.c.Op("findex", r.P())
 		default:
 			r.sh.freeze(r.entries)
 			r.emitFreeze(fo)
@@ -805,6 +1071,7 @@ func (r *caseRun) opCrash() {
 }
 
 func (r *caseRun) crashTo(img string) {
+	r.frozenPending = false
 	r.n.close() // the abandoned process; whatever it still writes goes to the old directory
 	r.n = nil
 	r.sh.crash()
@@ -834,13 +1101,13 @@ func (r *caseRun) observeDurable() durableObs {
 	}
 	for _, e := range r.entries {
 		cnt := 0
-		for _, id := range r.ids[e.Seq] {
+		for _, id := range r.ids[e.Slot] {
 			if row, ok := read(id.metricID)[id.seriesID]; ok {
-				cnt += int(row[int(e.Seq)])
+				cnt += int(row[int(e.Slot)])
 			}
 		}
 		if cnt > 0 {
-			o.files[e.Seq] = cnt
+			o.files[e.Slot] = cnt
 		}
 	}
 	seenM, seenP := map[int]bool{}, map[string]bool{}
@@ -867,17 +1134,17 @@ func (r *caseRun) observeDurable() durableObs {
 				o.iunres = append(o.iunres, pk)
 			}
 		}
-		if o.files[e.Seq] > 0 {
+		if o.files[e.Slot] > 0 {
 			named := 0
 			if err == nil {
 				for _, sid := range sids {
 					if row, ok := read(mid)[sid]; ok {
-						named += int(row[int(e.Seq)])
+						named += int(row[int(e.Slot)])
 					}
 				}
 			}
 			if err != nil || named == 0 {
-				o.unres = append(o.unres, e.Seq)
+				o.unres = append(o.unres, e.Slot)
 			}
 		}
 	}
@@ -891,7 +1158,7 @@ func (r *caseRun) indexPostingDurable(e entry) bool {
 		if o.Metric != e.Metric || o.Tagv != e.Tagv {
 			continue
 		}
-		for _, id := range r.ids[o.Seq] {
+		for _, id := range r.ids[o.Slot] {
 			bm, err := r.n.shard.IndexDB().GetSeriesIDsForMetric(id.metricID)
 			if err == nil && bm != nil && bm.Contains(id.seriesID) {
 				return true
@@ -915,20 +1182,32 @@ func sortPairKeys(ps []string) {
 	})
 }
 
-func (o durableObs) String() string {
-	var seqs []int64
-	for s := range o.files {
-		seqs = append(seqs, s)
+// render prints the observation in the model driver's format: files / unres are per lane in terms of
+// the lane's own log sequences.
+func (r *caseRun) render(o durableObs) string {
+	filesOf := func(l models.NodeID) string {
+		var fs []string
+		for _, e := range r.entries {
+			if e.ldr() == l && o.files[e.Slot] > 0 {
+				fs = append(fs, fmt.Sprintf("%d:%d", e.Seq, o.files[e.Slot]))
+			}
+		}
+		return strings.Join(fs, ",")
 	}
-	sort.Slice(seqs, func(i, j int) bool { return seqs[i] < seqs[j] })
-	var fs, us, ns []string
-	for _, s := range seqs {
-		fs = append(fs, fmt.Sprintf("%d:%d", s, o.files[s]))
+	unresOf := func(l models.NodeID) string {
+		un := map[int64]bool{}
+		for _, s := range o.unres {
+			un[s] = true
+		}
+		var us []string
+		for _, e := range r.entries {
+			if e.ldr() == l && un[e.Slot] {
+				us = append(us, strconv.FormatInt(e.Seq, 10))
+			}
+		}
+		return strings.Join(us, ",")
 	}
-	sort.Slice(o.unres, func(i, j int) bool { return o.unres[i] < o.unres[j] })
-	for _, s := range o.unres {
-		us = append(us, strconv.FormatInt(s, 10))
-	}
+	var ns []string
 	sort.Ints(o.names)
 	for _, m := range o.names {
 		ns = append(ns, strconv.Itoa(m))
@@ -936,62 +1215,86 @@ func (o durableObs) String() string {
 	sortPairKeys(o.tagv)
 	sortPairKeys(o.idx)
 	sortPairKeys(o.iunres)
-	return fmt.Sprintf("files=%s unres=%s iunres=%s names=%s tagv=%s idx=%s", strings.Join(fs, ","), strings.Join(us, ","),
-		strings.Join(o.iunres, ","), strings.Join(ns, ","), strings.Join(o.tagv, ","), strings.Join(o.idx, ","))
+	dict := fmt.Sprintf("iunres=%s names=%s tagv=%s idx=%s", strings.Join(o.iunres, ","), strings.Join(ns, ","),
+		strings.Join(o.tagv, ","), strings.Join(o.idx, ","))
+	if !r.multi() {
+		l := r.leaders[0]
+		return fmt.Sprintf("files=%s unres=%s %s", filesOf(l), unresOf(l), dict)
+	}
+	var fs, us []string
+	for _, l := range r.leaders {
+		fs = append(fs, fmt.Sprintf("files%d=%s", l, filesOf(l)))
+		us = append(us, fmt.Sprintf("unres%d=%s", l, unresOf(l)))
+	}
+	return strings.Join(fs, " ") + " " + strings.Join(us, " ") + " " + dict
+}
+
+// renderFiles = the `files` part only (recoverp).
+func (r *caseRun) renderFiles(o durableObs) string {
+	full := r.render(o)
+	if !r.multi() {
+		return full[:strings.Index(full, " unres=")]
+	}
+	return full[:strings.Index(full, " unres")]
 }
 
 // opRecover opens a fresh engine + partition on the image and evaluates C07's clauses on it.
 func (r *caseRun) opRecover(img string, partial bool) {
 	var n *node
-	if !r.guard("recover", func() (err error) { n, err = openNode(img, r.famTime, r.expired); return err }) {
+	if !r.guard("recover", func() (err error) { n, err = openNode(img, r.famTime, r.expired, r.leaders...); return err }) {
 		return
 	}
 	r.n = n
-	p := n.pos()
+	r.n.use(r.cur)
 	obs := r.observeDurable()
 	if partial {
-		fs := obs.String()
-		r.c.Op("recoverp", p.String()+" "+fs[:strings.Index(fs, " unres=")])
+		r.c.Op("recoverp", r.P()+" "+r.renderFiles(obs))
 	} else {
-		r.c.Op("recover", p.String()+" "+obs.String())
+		r.c.Op("recover", r.P()+" "+r.render(obs))
 	}
 	r.c.NonTrivial()
 
-	// clause 1: the acknowledged position in the image never exceeds the stored sequence
-	stored := int64(-1)
-	if p.hasStored {
-		stored = p.stored
-	}
-	// (a corrupt entry carries no rows: IgnoreMessage acknowledges it when it directly follows the
-	// acknowledged position, so only entries with rows count)
-	for _, e := range r.entries {
-		if !e.Bad && e.Seq > stored && e.Seq <= n.imageAck {
-			r.c.Fail(keyAckGtStored, fmt.Sprintf("crash image: consumer group ack %d covers entry %d, but the sequence stored with the data is %d", n.imageAck, e.Seq, stored))
-			break
+	n.save()
+	for _, l := range r.leaders {
+		p := n.posOf(l)
+		ln := n.lanes[l]
+		// clause 1: the acknowledged position in the image never exceeds the stored sequence
+		stored := int64(-1)
+		if p.hasStored {
+			stored = p.stored
 		}
-	}
-	// clause 3: every appended entry is in a data file or still in the log above the ack
-	for _, e := range r.entries {
-		if e.Bad || obs.files[e.Seq] > 0 {
-			continue
-		}
-		if n.part != nil && e.Seq > p.ack {
-			if _, err := n.fq.Queue().Get(e.Seq); err == nil {
-				continue
+		// (a corrupt entry carries no rows: IgnoreMessage acknowledges it when it directly follows the
+		// acknowledged position, so only entries with rows count)
+		for _, e := range r.entries {
+			if e.ldr() == l && !e.Bad && e.Seq > stored && e.Seq <= ln.imageAck {
+				r.c.Fail(keyAckGtStored, fmt.Sprintf("crash image: leader %d's consumer group ack %d covers entry %d, but the sequence stored with the data is %d", l, ln.imageAck, e.Seq, stored))
+				break
 			}
 		}
-		if key, ok := r.lossFate[e.Seq]; ok {
-			r.c.Fail(key, fmt.Sprintf("entry %d is in no data file and the log is acknowledged up to %d: a whole family.Flush ran between "+
-				"GetOrCreateMemoryDatabase and AcquireWrite of its WriteRows, the rows went into the closed memory database, "+
-				"its sequence was committed and later stored and acknowledged", e.Seq, p.ack))
-			continue
+		// clause 3: every appended entry is in a data file or still in the log above the ack
+		for _, e := range r.entries {
+			if e.ldr() != l || e.Bad || obs.files[e.Slot] > 0 {
+				continue
+			}
+			if ln.part != nil && e.Seq > p.ack {
+				if _, err := ln.fq.Queue().Get(e.Seq); err == nil {
+					continue
+				}
+			}
+			if key, ok := r.lossFate[e.Slot]; ok {
+				r.c.Fail(key, fmt.Sprintf("entry %d is in no data file and the log is acknowledged up to %d: a whole family.Flush ran between "+
+					"GetOrCreateMemoryDatabase and AcquireWrite of its WriteRows, the rows went into the closed memory database, "+
+					"its sequence was committed and later stored and acknowledged", e.Seq, p.ack))
+				continue
+			}
+			if ln.part == nil {
+				r.c.Fail(keyLost, fmt.Sprintf("entry %d of leader %d's log is in no data file and the write-ahead log directory is gone", e.Seq, l))
+				continue
+			}
+			r.c.Fail(keyLost, fmt.Sprintf("entry %d of leader %d's log is in no data file and not replayable (ack=%d appended=%d)", e.Seq, l, p.ack, p.appended))
 		}
-		if n.part == nil {
-			r.c.Fail(keyLost, fmt.Sprintf("entry %d is in no data file and the write-ahead log directory is gone", e.Seq))
-			continue
-		}
-		r.c.Fail(keyLost, fmt.Sprintf("entry %d is in no data file and not replayable (ack=%d appended=%d)", e.Seq, p.ack, p.appended))
 	}
+	p := n.pos()
 	if partial {
 		return // the dictionaries were imaged half flushed: resolution is checked after the replay (finish)
 	}
@@ -1037,8 +1340,11 @@ func (r *caseRun) finish() {
 	if r.broken || r.tainted || r.n == nil {
 		return
 	}
-	for i := 0; i < len(r.entries)+1 && r.n.pending() && !r.broken; i++ {
-		r.opApply()
+	for _, l := range r.leaders {
+		r.use(l)
+		for i := 0; i < len(r.entries)+1 && r.n.pending() && !r.broken; i++ {
+			r.opApply()
+		}
 	}
 	if r.broken {
 		return
@@ -1049,18 +1355,18 @@ func (r *caseRun) finish() {
 			continue
 		}
 		cnt := 0
-		for _, id := range r.ids[e.Seq] {
+		for _, id := range r.ids[e.Slot] {
 			v, ok := cache[id.metricID]
 			if !ok {
 				v = r.n.readMetric(id.metricID)
 				cache[id.metricID] = v
 			}
 			if row, ok := v[id.seriesID]; ok {
-				cnt += int(row[int(e.Seq)])
+				cnt += int(row[int(e.Slot)])
 			}
 		}
 		if cnt == 0 {
-			if key, ok := r.lossFate[e.Seq]; ok {
+			if key, ok := r.lossFate[e.Slot]; ok {
 				r.c.Fail(key, fmt.Sprintf("entry %d is neither in memory nor in a data file after the log was replayed: a whole family.Flush ran "+
 					"between GetOrCreateMemoryDatabase and AcquireWrite of its WriteRows", e.Seq))
 			} else {
@@ -1082,7 +1388,7 @@ func (r *caseRun) finish() {
 			}
 			for _, sid := range sids {
 				if row, ok := v[sid]; ok {
-					named += int(row[int(e.Seq)])
+					named += int(row[int(e.Slot)])
 				}
 			}
 		}
@@ -1099,6 +1405,16 @@ func (r *caseRun) applyAll() {
 	for r.n != nil && !r.broken && r.n.pending() {
 		r.opApply()
 	}
+}
+
+// applyAllLanes drains every leader's log.
+func (r *caseRun) applyAllLanes() {
+	old := r.cur
+	for _, l := range r.leaders {
+		r.use(l)
+		r.applyAll()
+	}
+	r.use(old)
 }
 
 // witnessWindow: Neg.windowTrace on the real node.
@@ -1207,6 +1523,68 @@ func (r *caseRun) metaFlushFailsThenRetry(store string) {
 	r.opFlushIndex()
 	r.opFlushData(noCrash, false)
 	r.opCrash()
+}
+
+// closeAfterFailedFlush: a data flush fails after the memdb switch (e0 stays in the immutable memory
+// database), e1 and e2 are replicated into the new one, the family is closed; the node dies inside
+// Close after its first file (crashFile 0) or after Close.
+func (r *caseRun) closeAfterFailedFlush(crashFile, crashAt int) {
+	r.opAppend(0, 0)
+	r.opApply()
+	r.opFlushMeta()
+	r.opFlushIndex()
+	r.opFlushDataFail()
+	if r.stop() {
+		return
+	}
+	r.opAppend(0, 0)
+	r.opApply()
+	r.opAppend(0, 0)
+	r.opApply()
+	r.opFlushData(noCrash, false) // no-op: the immutable memory database is pending
+	r.opClose(crashFile, crashAt)
+}
+
+// followerLog: the node holds only the log of ANOTHER leader (it is a follower for the family);
+// a crash between the data commit and the acknowledgement, restart through Recovery().
+func (r *caseRun) followerLog() {
+	r.opAppend(0, 0)
+	r.opAppend(1, 1)
+	r.applyAll()
+	r.opFlushMeta()
+	r.opFlushIndex()
+	r.opFlushData(crashMid, false)
+	if r.stop() {
+		return
+	}
+	r.opAppend(0, 0)
+	r.applyAll()
+	r.opCrash()
+}
+
+// leaderAndFollowerLogs: the node is leader (log 1) and follower (log 2) for the same family hour;
+// log 1 is flushed up to sequence 2, log 2 has two consumed but unflushed entries; restart.
+func (r *caseRun) leaderAndFollowerLogs() {
+	r.use(1)
+	for i := 0; i < 3; i++ {
+		r.opAppend(i, 0)
+	}
+	r.applyAll()
+	r.opFlushMeta()
+	r.opFlushIndex()
+	r.opFlushData(noCrash, false)
+	r.use(2)
+	r.opAppend(0, 0)
+	r.opAppend(1, 0)
+	r.applyAll()
+	r.opCrash()
+	if r.stop() {
+		return
+	}
+	r.applyAllLanes()
+	r.opFlushMeta()
+	r.opFlushIndex()
+	r.opFlushData(crashMid, false)
 }
 
 // witnessGap: Neg.gapTrace on the real node — a whole family.Flush between GetOrCreateMemoryDatabase
@@ -1376,6 +1754,26 @@ func (r *caseRun) randomCase(disciplined bool) {
 		return true
 	}
 	for i := 0; i < nOps && !r.broken && !r.tainted && !r.terminal && len(r.entries) < 300; i++ {
+		if r.multi() {
+			// partition ops go to a random leader's log
+			r.use(r.leaders[rng.Intn(len(r.leaders))])
+		}
+		if !r.multi() && r.frozenPending && rng.Intn(4) == 0 {
+			// shutdown with the immutable memory database still pending, in database.Close's order:
+			// flushMeta, FlushIndex of the shard, then shard.Close -> segment.Close -> dataFamily.Close
+			// (a lone Close would persist rows whose names no flush has seen; lindb never does that)
+			r.opFlushMeta()
+			r.opFlushIndex()
+			if r.stop() {
+				break
+			}
+			cf, ca := rng.Intn(2), []int{noCrash, crashMid, crashAck}[rng.Intn(3)]
+			r.opClose(cf, ca)
+			if disciplined {
+				known = nil
+			}
+			continue
+		}
 		switch k := rng.Intn(100); {
 		case k < 4:
 			// a log entry that does not decompress
@@ -1492,6 +1890,14 @@ func (r *caseRun) randomCase(disciplined bool) {
 				if r.opFlushInnerCrash(innerData) {
 					continue
 				}
+			} else if !r.multi() && !r.frozenPending && rng.Intn(10) == 0 {
+				// the table file of this round's data flush cannot be created
+				r.opFlushDataFail()
+			} else if !r.multi() && rng.Intn(12) == 0 {
+				r.opClose(rng.Intn(2), []int{noCrash, crashMid, crashAck}[rng.Intn(3)])
+				if disciplined {
+					known = nil
+				}
 			} else if rng.Intn(4) == 0 && injected() {
 				// the flush of this round ran inside Replica
 			} else if rng.Intn(6) == 0 && !r.n.pending() && len(known) > 0 {
@@ -1538,7 +1944,19 @@ func (area) Run(c *core.Ctx) error {
 		r := &caseRun{c: c, rng: c.Rng(i), famTime: hour, ids: map[int64][]ids{}, lossFate: map[int64]string{},
 			sh: &shadow{metric: newDict(), tagv: newDict(), index: newDict(), swapOnEmpty: swap, fate: map[int64]string{}, idxFate: map[string]string{}}}
 		r.innerK = -1
-		if i == 5 || (i > 13 && i%8 == 6) {
+		if i == 17 {
+			r.leaders = []models.NodeID{2}
+		}
+		if i == 18 {
+			r.leaders = []models.NodeID{1, 2}
+		}
+		if i > 18 && i%16 == 9 {
+			r.leaders = []models.NodeID{1, 2}
+		}
+		if i > 18 && i%16 == 1 {
+			r.leaders = []models.NodeID{2}
+		}
+		if i == 5 || (i > 18 && i%8 == 6) {
 			// a family whose hour ended 5 hours ago: with ahead = 1h it is past its write window
 			r.expired, r.famTime = true, hour-6*3600000
 		}
@@ -1578,6 +1996,15 @@ func (area) Run(c *core.Ctx) error {
 			case i == 12 || i == 13:
 				c.Branch("meta-flush-fails-then-retry")
 				r.metaFlushFailsThenRetry([]string{"metric", "tv"}[i-12])
+			case i >= 14 && i <= 16:
+				c.Branch("close-after-failed-flush")
+				r.closeAfterFailedFlush([][2]int{{0, crashAck}, {0, crashMid}, {1, noCrash}}[i-14][0], [][2]int{{0, crashAck}, {0, crashMid}, {1, noCrash}}[i-14][1])
+			case i == 17:
+				c.Branch("follower-log")
+				r.followerLog()
+			case i == 18:
+				c.Branch("leader-and-follower-logs")
+				r.leaderAndFollowerLogs()
 			case i%4 == 3:
 				c.Branch("wild")
 				r.randomCase(false)
